@@ -138,8 +138,11 @@ func subjects(thorough bool) []subject {
 		if thorough {
 			step = 1
 		}
-		for i := 0; i < len(cs); i += step {
+		for i := 0; i < len(cs); i++ {
 			c := cs[i]
+			if i%step != 0 && !strings.Contains(c.ID, "nan") { // NaN-bearing values are always included (Equal differs per runtime)
+				continue
+			}
 			if proto.CheckInitialized(c.Msg) != nil {
 				continue
 			}
@@ -360,6 +363,29 @@ func main() {
 			}
 		}
 	}
+	// Equal on the SAME pointer and on an equal copy, for every subject: the answer must be the runtime's own (a gogo
+	// message holding NaN is not equal to itself; google's Equal says it is)
+	var selfPairs int
+	for _, a := range subs {
+		x, y := a.mk(), a.mk()
+		for pi, pair := range [][2]any{{x, x}, {x, y}} {
+			var want, got bool
+			if p := guard(func() { want = a.cls.equal(pair[0], pair[1]) }); p != "" {
+				continue
+			}
+			evals++
+			selfPairs++
+			what := map[int]string{0: "same pointer", 1: "equal copy"}[pi]
+			if p := guard(func() { got = csproto.Equal(pair[0], pair[1]) }); p != "" {
+				fail("Equal-panic", a, fmt.Sprintf("Equal(%s, %s): %s", a.name, what, p))
+			} else if got != want {
+				fail("Equal-self", a, fmt.Sprintf("Equal(%s, %s)=%v, the runtime says %v", a.name, what, got, want))
+			} else if want {
+				nontr++
+			}
+		}
+	}
+	r.Set("equal_same_pointer_and_copy_pairs", selfPairs)
 	r.Set("subjects", len(subs))
 	r.Set("equal_pairs", len(reps)*len(reps))
 	// unsupported values: documented error / zero result, no panic
